@@ -80,6 +80,17 @@ where
             type_id
         ))?;
 
+        #[cfg(feature = "verif-hooks")]
+        scale_typegen::verif_hooks::emit(
+            match self.cache.borrow().get(&type_id) {
+                None => "tf:miss",
+                Some(Cached::Recursive) => "tf:hit-in-progress",
+                Some(Cached::Computed(_)) => "tf:hit-computed",
+            },
+            type_id,
+            0,
+            0,
+        );
         if let Some(cache_value) = self.cache.borrow().get(&type_id) {
             let result_or_continue = match cache_value {
                 Cached::Recursive => (self.recurse_policy)(type_id, ty, self),
@@ -90,6 +101,8 @@ where
             }
         };
         self.cache.borrow_mut().insert(type_id, Cached::Recursive);
+        #[cfg(feature = "verif-hooks")]
+        scale_typegen::verif_hooks::emit("tf:policy-enter", type_id, 0, 0);
         let r = (self.policy)(type_id, ty, self)?;
         self.cache
             .borrow_mut()
